@@ -174,8 +174,8 @@ def run_units(pid, units, tier, seed, level, rule, assumptions, extra_cov=None, 
                 base = os.path.join(work, "%s-s%d" % (u.name, i))
                 env = dict(u.env)
                 env["RC_PARAMS"] = "seed=%d max_success=%d max_size=%d" % (seed * 1000 + i + 1, u.cases, u.max_size)
-                extra = ["--digest", base + ".digest"] if u.digest_group else []
-                cmds.append((u.cmd("gen", "--out", base + ".json", "--fail", base + ".fail", *extra), env))
+                dig = ["--digest", base + ".digest"] if u.digest_group else []
+                cmds.append((u.cmd("gen", "--out", base + ".json", "--fail", base + ".fail", *dig), env))
                 meta.append((u, base))
         results = skv.run_procs(cmds, timeout=max(u.timeout for u in units))
         stat_files = []; hash_files = []; per_unit = {}
@@ -350,6 +350,10 @@ def main(argv):
         return props.REGISTRY[pid](pid, tier, seed, replay)
     except InfraError as e:
         print("INFRA-ERROR (%s): %s" % (pid, e))
+        return 2
+    except Exception:
+        import traceback
+        print("INFRA-ERROR (%s): unexpected exception in the driver\n%s" % (pid, traceback.format_exc()))
         return 2
 
 
